@@ -65,6 +65,11 @@ type closeStep struct {
 	Code  int    `json:"code,omitempty"`
 	Text  string `json:"text,omitempty"`
 	Burst []step `json:"burst,omitempty"` // sent by the closing side immediately before it closes
+	// Flood: this many further 100 KiB messages are sent by the closing side right before it closes,
+	// while the other side does not read from its socket for StallMs and reads slowly afterwards (a slow reader): more than the
+	// receiver's socket buffers hold is then still on its way when the closing side closes.
+	Flood   int `json:"flood_100k,omitempty"`
+	StallMs int `json:"reader_stall_ms,omitempty"`
 }
 
 type conversation struct {
@@ -115,6 +120,10 @@ func genConversation(t *rapid.T, maxSteps int) conversation {
 			op = "b-send"
 		}
 		cv.Close.Burst = append(cv.Close.Burst, genData(t, op))
+	}
+	if rapid.IntRange(0, 5).Draw(t, "flood") == 0 {
+		cv.Close.Flood = rapid.SampledFrom([]int{16, 64}).Draw(t, "flood_n")
+		cv.Close.StallMs = rapid.SampledFrom([]int{300, 600}).Draw(t, "stall_ms")
 	}
 	return cv
 }
@@ -422,6 +431,16 @@ func runTaggedConversation(l *wsLab, tl tunnelLab, cv conversation, tag string) 
 	for _, st := range cv.Close.Burst {
 		play(st)
 	}
+	if cv.Close.Flood > 0 {
+		other.stallReads(time.Duration(cv.Close.StallMs)*time.Millisecond, 3*time.Millisecond)
+		op := "c-send"
+		if cv.Close.Side == "backend" {
+			op = "b-send"
+		}
+		for i := 0; i < cv.Close.Flood; i++ {
+			play(step{Op: op, Type: "binary", Size: 100 << 10, Salt: 200 + i})
+		}
+	}
 	closer.sendq <- sendItem{close: cv.Close.Mode, code: cv.Close.Code, text: cv.Close.Text}
 	// after one side closes, the other side's read must end
 	if v := s.waitFor(fmt.Sprintf("%s's read to end after %s closed (%s)", other.name, closer.name, cv.Close.Mode), func() bool { return other.snap().readEnded }); v != "" {
@@ -466,7 +485,7 @@ func (s *session) progressText(toServer, toClient int) string {
 func TestC20Tunnel(t *testing.T) {
 	sub := lab.Sub("websocket-tunnel", "rapid: lab (5 strategies x 1-2 gorilla/websocket backends x plugin chain = any sequence of length 0-4 over {logging, size_limit(8 B response limit), gzip, headers, request-id} x request_id/trace on/off x "+
 		"single-frame or 4 KiB-fragmented messages x subprotocol) behind a real http.Server with the real handler chain, gorilla client sending Accept-Encoding: gzip; 1-2 sessions, each a script of <= 40 steps over "+
-		"{client sends text|binary of 0,1,125,126,65535,65536,102400 B, same with backend echo, backend sends unsolicited, ping from either side, sync}, queued without waiting (both directions in flight together), ended by a drawn side with a close frame (drawn code/reason) or an abrupt TCP close, preceded by a burst of 0-3 messages from the closing side; "+
+		"{client sends text|binary of 0,1,125,126,65535,65536,102400 B, same with backend echo, backend sends unsolicited, ping from either side, sync}, queued without waiting (both directions in flight together), ended by a drawn side with a close frame (drawn code/reason) or an abrupt TCP close, preceded by a burst of 0-3 messages from the closing side and, in 1 of 6 sessions, by a flood of 16 or 64 further 100 KiB messages while the other side does not read for 300/600 ms and then reads one message per 3 ms (more than its socket buffers hold is still on its way when the closing side closes); "+
 		"oracle: each side received exactly the (type, payload) sequence the other side's writer sent, pongs match pings, a close frame arrives with its code and reason, and after one side closes the other side's read ends within a 5 s no-progress watchdog; "+
 		"non-trivial = data in both directions and a non-empty plugin chain")
 	sub.NontrivialFloor(0.40)
@@ -549,6 +568,9 @@ func tunnelLabels(tl tunnelLab, cv conversation) (labels []string, nontrivial bo
 	}
 	if big {
 		labels = append(labels, "size>=64KiB")
+	}
+	if cv.Close.Flood > 0 {
+		labels = append(labels, "flood-before-close-slow-reader")
 	}
 	if len(cv.Close.Burst) > 0 {
 		labels = append(labels, "burst-before-close")
